@@ -510,6 +510,14 @@ def search_round_trip(ob, seed):
             rr = replay_round_trip(c, ob)
             if rr.confirmed:
                 return c, rr
+    # extras named like the framework's own metadata fields (a hoisted or renamed field must still arrive as an extra)
+    for key in ("error_kind", "traceback", "exception_type", "exception_message", "pid", "extra", "log_extra", ERROR_KIND_KEY, LOG_EXTRA_KEY, LOG_LEVEL_KEY):
+        for lv in LOG_LEVELS:
+            for val in ("v", ""):
+                c = {"level": lv.value, "text": "t", "has_extra": True, "probe_present": True, "probe_key": key, "probe_value": val}
+                rr = replay_round_trip(c, ob)
+                if rr.confirmed:
+                    return c, rr
     for c in ({"level": "INFO", "text": ""}, {"level": "TRACE", "text": "x" * 100000, "has_extra": True}):
         rr = replay_round_trip(c, ob)
         if rr.confirmed:
